@@ -1115,10 +1115,9 @@ class Elemwise(Blockwise):
         full_index = index + (slice(None),) * (len(out_ind) - len(index))
 
         # Build sliced inputs
-        new_args = []
-        for arg in self.elemwise_args:
+        def slice_operand(arg):
             if is_scalar_for_elemwise(arg):
-                new_args.append(arg)
+                return arg
             else:
                 # Map output slice to this input's dimensions
                 # arg has indices tuple(range(arg.ndim)[::-1])
@@ -1159,14 +1158,20 @@ class Elemwise(Blockwise):
                         arg_slices.append(slice(None))
 
                 sliced_arg = new_collection(arg)[tuple(arg_slices)]
-                new_args.append(sliced_arg.expr)
+                return sliced_arg.expr
+
+        new_args = [slice_operand(arg) for arg in self.elemwise_args]
+        # Array-valued ``where=``/``out=`` are operands of the ufunc like any
+        # other: slice them alongside (scalars / True / None pass through).
+        new_where = slice_operand(self.where) if hasattr(self.where, "ndim") else self.where
+        new_out = slice_operand(self.out) if hasattr(self.out, "ndim") else self.out
 
         return Elemwise(
             self.op,
             self.operand("dtype"),
             self.operand("name"),
-            self.where,
-            self.out,
+            new_where,
+            new_out,
             self.operand("_user_kwargs"),
             *new_args,
         )
